@@ -13,6 +13,7 @@ import CBV.Lemmas.C09Entity
 import CBV.Lemmas.C09Seq
 import CBV.Lemmas.C09CopyOut
 import CBV.Lemmas.C09Shear
+import CBV.Lemmas.C09SeqShear
 import CBV.Gen.TC09
 
 namespace CBV.C09
@@ -714,5 +715,54 @@ theorem T_C09_array_rows_source :
   intro vs h h0
   rw [h0] at h
   simp [wfV, arrayMinRows] at h
+
+/-! ### Round 6f: shear joins "transform, then read = read, then transform" — with its own map -/
+
+/-- **`ElementBase.shear` on any part tree without shared leaves**: shearing the entity in place and reading its output
+    geometry = reading the output geometry and applying the point map leaf by leaf (`shearV`: corner points, arc points,
+    array rows and axis directions by the SAME map — not `t.dir`; no inversion; caches dropped).  The analogue of
+    `T_C09_output` for a map that is not a similarity and, as coded (`shearP`), not even affine. -/
+theorem T_C09_shear_output (f : V3 → V3) (e : Ent) (h : Heap) (hna : NoAlias e) (hin : InHeap e h) :
+    resolveE (shearE f e h).2 (shearE f e h).1 = shearV f (resolveE h e) :=
+  resolve_shearE f e h hna hin
+
+/-- what `shearV` does: the same point map on every kind of leaf, the skeleton kept -/
+theorem T_C09_shear_output_leaves (f : V3 → V3) (v : V3) (vs : List V3) (k : Kind) (a : Rat) (ch : List VEnt) :
+    shearV f (.pt v) = .pt (f v) ∧ shearV f (.dir v) = .dir (f v) ∧ shearV f (.arr vs) = .arr (vs.map f) ∧
+      shearV f (.node k a ch) = .node k (touchAttr k a) (shearVL f ch) := by
+  simp [shearV]
+
+/-- NoAlias and InHeap survive a shear (the tree keeps its cells), so the next call is covered again -/
+theorem T_C09_shear_invariant (f : V3 → V3) (e : Ent) (h : Heap) (hna : NoAlias e) (hin : InHeap e h) :
+    NoAlias (shearE f e h).1 ∧ InHeap (shearE f e h).1 (shearE f e h).2 :=
+  inv_shearE f e h hna hin
+
+/-- **sequences that contain shear steps** (any entity, any length, method chain or transformation list for the four
+    transformations, default origins resolved against the current centre; shear steps with any point map): running the
+    sequence on the entity in the heap and reading the output = running the value-level sequence on the output read
+    before; both sides refuse together.  Extends `T_C09_sequence`. -/
+theorem T_C09_sequence_shear (viaMethod : Bool) (steps : List AnyStep) (e : Ent) (h : Heap)
+    (hna : NoAlias e) (hin : InHeap e h) :
+    (runS viaMethod steps (e, h)).map (fun s => resolveE s.2 s.1) = runSV viaMethod steps (resolveE h e) :=
+  runS_resolve viaMethod steps e h hna hin
+
+/-- without shear steps the mixed sequence is the sequence of `T_C09_sequence` -/
+theorem T_C09_sequence_shear_conservative (viaMethod : Bool) (ts : List (Tr × Option V3)) (s : Ent × Heap) (v : VEnt) :
+    runS viaMethod (ts.map AnyStep.tr) s = runSteps viaMethod ts s ∧
+      runSV viaMethod (ts.map AnyStep.tr) v = runStepsV viaMethod ts v := by
+  constructor
+  · rw [runSteps_eq]
+    simp only [runS, List.foldlM_map, stepHS]
+  · rw [runStepsV_eq]
+    simp only [runSV, List.foldlM_map, stepOS]
+
+/-- a face sheared, then translated, then sheared again: NoAlias / InHeap hold for the sample, the sequence is defined -/
+example : NoAlias sampleFace ∧ InHeap sampleFace (List.replicate 8 V3.zero) ∧
+    (runS true [.shear (shearP ⟨0, 0, 1⟩ ⟨0, 0, 0⟩ ⟨1, 0, 0⟩ 1 1 1), .tr (.translate ⟨1, 2, 3⟩, none),
+      .shear (shearP ⟨0, 0, 1⟩ ⟨0, 0, 0⟩ ⟨1, 0, 0⟩ 1 1 1)] (sampleFace, List.replicate 8 V3.zero)).isSome = true := by
+  refine ⟨?_, ?_, ?_⟩
+  · unfold NoAlias; decide
+  · unfold InHeap; decide
+  · simp [runS, stepHS, stepH, method, Tr.resolveWith]
 
 end CBV.C09
